@@ -25,6 +25,7 @@ import (
 type exactS struct {
 	A  int `json:"a"`
 	AB int `json:"ab"`
+	KK int `json:"kk"`
 	N0 int `json:"0"`
 	N1 int `json:"1"`
 	K  int `json:"1/2"`
@@ -33,6 +34,7 @@ type exactS struct {
 type foldS struct {
 	A  int `json:"a,case:ignore"`
 	AB int `json:"ab,case:ignore"`
+	KK int `json:"kk,case:ignore"`
 	N0 int `json:"0"`
 	N1 int `json:"1"`
 	K  int `json:"1/2"`
@@ -41,6 +43,7 @@ type foldS struct {
 type plainS struct { // names only; case folding comes from the MatchCaseInsensitiveNames option
 	A  int `json:"a"`
 	AB int `json:"ab"`
+	KK int `json:"kk"`
 	Z  int `json:"z"`
 }
 type fallbackMapS struct {
@@ -89,6 +92,9 @@ func pairs() []pair {
 		{name: `a,\u0061`, n1: `"a"`, n2: `"\u0061"`, equalText: true, foldEqual: true, foldField: "a"},
 		{name: "A,a", n1: `"A"`, n2: `"a"`, foldEqual: true, foldField: "a"},
 		{name: "a_b,AB", n1: `"a_b"`, n2: `"AB"`, foldEqual: true, foldField: "ab"},
+		// a name that is longer in bytes than any field name and still folds to one (KELVIN SIGN folds to k)
+		{name: "kk,KELVIN KELVIN", n1: `"kk"`, n2: `"\u212a\u212a"`, foldEqual: true, foldField: "kk"},
+		{name: "KELVIN k,Kk", n1: "\"\u212ak\"", n2: `"Kk"`, foldEqual: true, foldField: "kk"},
 		{name: "0,-0", n1: `"0"`, n2: `"-0"`, intEqual: true, floatEqual: true},
 		{name: "1,1.0", n1: `"1"`, n2: `"1.0"`, floatEqual: true},
 		{name: "1,1e0", n1: `"1"`, n2: `"1e0"`, floatEqual: true},
@@ -107,7 +113,7 @@ func targets() []target {
 	txt := func(p *pair) bool { return p.equalText }
 	return []target{
 		{name: "struct (exact names)", typ: reflect.TypeOf(exactS{}), same: txt},
-		{name: "struct (case:ignore fields)", typ: reflect.TypeOf(foldS{}), same: func(p *pair) bool { return p.equalText || (p.foldEqual && (p.foldField == "a" || p.foldField == "ab")) }},
+		{name: "struct (case:ignore fields)", typ: reflect.TypeOf(foldS{}), same: func(p *pair) bool { return p.equalText || (p.foldEqual && (p.foldField == "a" || p.foldField == "ab" || p.foldField == "kk")) }},
 		{name: "struct + MatchCaseInsensitiveNames", typ: reflect.TypeOf(plainS{}), opts: []jsonv2.Options{jsonv2.MatchCaseInsensitiveNames(true)}, same: func(p *pair) bool { return p.equalText || p.foldEqual }},
 		{name: "map[string]int", typ: reflect.TypeOf(map[string]int{}), same: txt},
 		{name: "map[NamedString]int", typ: reflect.TypeOf(map[typeuniv.NamedString]int{}), same: txt},
@@ -430,6 +436,8 @@ func winner(root reflect.Value, t *target, p *pair, c *context) (int, bool) {
 			return x.A, true
 		case "ab":
 			return x.AB, true
+		case "kk":
+			return x.KK, true
 		case "z":
 			return x.Z, true
 		}
@@ -437,6 +445,8 @@ func winner(root reflect.Value, t *target, p *pair, c *context) (int, bool) {
 		switch p.foldField {
 		case "a":
 			return x.A, true
+		case "kk":
+			return x.KK, true
 		case "ab":
 			return x.AB, true
 		case "z":
@@ -627,7 +637,7 @@ func Replay(r *evid.Run, raw json.RawMessage) {
 }
 
 func Run(r *evid.Run) {
-	r.Rule("unmarshal: 16 target shapes (the whole payload as / nested in the value of a member the struct does not know; the raw-value documents also through Decoder.SkipValue and a ReadToken loop; struct exact / case:ignore / MatchCaseInsensitiveNames, maps with string / named string / int / float64 / TextMarshaler keys, any, map[string]any, embedded fallback map and raw value, raw value, struct skipping the member) x 15 name pairs (equal, differently escaped incl. the short and six-character spellings of LF / quote / tab / backslash, case variants, '_'-variants, numerically equal integer and float keys, equal text keys, control) x 5 contexts (root, array element, member value, behind pointer at depth 3, behind interface) x filler counts {0,3,5,66,70} x every position pair of the two names (all pairs for small objects; first/last/around the 64-name switch for wide ones) x zero targets, targets pre-populated with the colliding key and targets pre-populated with unrelated entries only x input as []byte and streamed (every two-chunk split of the small documents, 1/7/64-byte reads for all): default options reject iff the names resolve to the same name/field/key (resolver table written from the docs); AllowDuplicateNames accepts with the later member winning and changes nothing on duplicate-free input. Ill-formed UTF-8: 24 ill-formed byte patterns in names and values x targets x {default: error, AllowInvalidUTF8: one U+FFFD per byte}. Marshal: 14 colliding-name constructions: never a nil error with duplicate names. evaluations = Unmarshal/Marshal scenario pairs; distinct_nontrivial = distinct scenarios with a colliding pair or ill-formed bytes")
+	r.Rule("unmarshal: 16 target shapes (the whole payload as / nested in the value of a member the struct does not know; the raw-value documents also through Decoder.SkipValue and a ReadToken loop; struct exact / case:ignore / MatchCaseInsensitiveNames, maps with string / named string / int / float64 / TextMarshaler keys, any, map[string]any, embedded fallback map and raw value, raw value, struct skipping the member) x 17 name pairs (equal, names longer in bytes than every field name that still fold to one, differently escaped incl. the short and six-character spellings of LF / quote / tab / backslash, case variants, '_'-variants, numerically equal integer and float keys, equal text keys, control) x 5 contexts (root, array element, member value, behind pointer at depth 3, behind interface) x filler counts {0,3,5,66,70} x every position pair of the two names (all pairs for small objects; first/last/around the 64-name switch for wide ones) x zero targets, targets pre-populated with the colliding key and targets pre-populated with unrelated entries only x input as []byte and streamed (every two-chunk split of the small documents, 1/7/64-byte reads for all): default options reject iff the names resolve to the same name/field/key (resolver table written from the docs); AllowDuplicateNames accepts with the later member winning and changes nothing on duplicate-free input. Ill-formed UTF-8: 24 ill-formed byte patterns in names and values x targets x {default: error, AllowInvalidUTF8: one U+FFFD per byte}. Marshal: 14 colliding-name constructions: never a nil error with duplicate names. evaluations = Unmarshal/Marshal scenario pairs; distinct_nontrivial = distinct scenarios with a colliding pair or ill-formed bytes")
 	r.Assume("resolver table (which name pairs resolve to the same field/key per target shape) written from the documentation")
 	ts, ps, cx := targets(), pairs(), contexts()
 	type unit struct{ ti, pi, ci int }
